@@ -2,7 +2,7 @@
 from ..core import Prop
 from .. import tlc, enum
 from ..backend import _as_int
-from .c02 import ins_to_state, _exc
+from .c02 import ins_to_state, embed_tableau, _exc
 from .c03 import read_maps
 
 
@@ -134,6 +134,29 @@ class C06(Prop):
                 lists = [[h] for h in herm_s] + [rng.sample(stab, rng.randrange(2, n + 1)) for _ in range(4)]
                 sid += 1
                 yield {"k": "m1", "rows": ins_to_state(m), "r": r, "obs": lists, "seed": self.seed * 7919 + sid * 64}
+
+        # registers across the 64-bit word boundary: an entangled block on the last qubits of a 66 / 70-qubit register that
+        # is maximally mixed elsewhere; observables on the high qubits (logical operators of the padding, elements and
+        # non-elements of the block's group, dependent lists)
+        for bi, (k, m, e) in enumerate(self.big[:(12 if thorough else 4)]):
+            nn = (66, 70)[bi % 2] + (k - 3)
+            rs = bi % (k + 1)
+            rows, r = embed_tableau(ins_to_state(m), rs, nn)
+            pad = nn - k
+
+            def one(q, l, ph=0):
+                w = [0] * nn + [ph]
+                w[q - 1] = l
+                return w
+            blk = [w for w in rows[pad + rs:nn]]
+            # (padding qubits pad-2, pad-1, pad: 61..63 / 65..67 -- both sides of the word boundary over the two sizes)
+            singles = [[one(pad, 3)], [one(pad - 1, 1, 2)], [one(pad - 2, 2)]] + [[w[:-1] + [(w[-1] + 2 * rng.randrange(2)) % 4]] for w in blk[:2]]
+            dense = [rng.randrange(4) for _ in range(nn)] + [rng.choice((0, 2))]
+            lists = [[one(pad, 3), one(pad, 3, 2)], [one(pad - 1, 1), one(pad, 3), one(pad - 1, 1, 2)], [dense]]
+            if blk:
+                lists.append([one(pad, 3), blk[0], one(pad, 3)])
+            sid += 1
+            yield {"k": "m1", "rows": rows, "r": r, "obs": singles + lists, "seed": self.seed * 7919 + sid * 64, "pkg": "py"}
 
     def execute(self, scn, be):
         rec = {"op": "measure1", "pre": {"rows": scn["rows"], "r": scn["r"]}}
